@@ -91,7 +91,8 @@ fn random_setter(rng: &mut Rng) -> Setter {
     let name = || -> &'static str { "" };
     let _ = name;
     let names = ["X-A", "x-a", "X-a", "X-B", "Accept", "User-Agent", "accept", "Cookie", "Accept-Encoding", "accept-encoding"];
-    let values: [&[u8]; 5] = [b"1", b"2", b"3", b"v v", b""];
+    // (a field value is an opaque byte string: obs-text that is not UTF-8 and non-ASCII UTF-8 included)
+    let values: [&[u8]; 7] = [b"1", b"2", b"3", b"v v", b"", b"caf\xe9 \xfc", "\u{20ac}".as_bytes()];
     match rng.below(16) {
         0 | 1 | 2 => Setter::Header(rng.pick(&names).to_string(), rng.pick(&values).to_vec()),
         3 | 4 | 5 => Setter::HeaderAppend(rng.pick(&names).to_string(), rng.pick(&values).to_vec()),
